@@ -4,253 +4,127 @@ import (
 	"flag"
 	"fmt"
 	"os"
+	"path/filepath"
 	"sort"
 	"strings"
-	"sync"
 	"time"
-
-	"golang.org/x/tools/go/packages"
-	"golang.org/x/tools/go/ssa"
-	"golang.org/x/tools/go/ssa/ssautil"
 )
 
-type PathResult struct {
-	status    string
-	msg       string
-	decisions int
-	steps     int
-	viols     []Violation
-	pending   [][]Dec
-	reached   map[string]bool
-	funcs     map[string]int
-	stubs     map[string]int
-	inconcl   int
-}
-
-type Worker struct {
-	prog         *ssa.Program
-	pkg          *ssa.Package
-	sol          *Solver
-	exploreSched bool
-	ts           *TermStore
-}
-
-func (w *Worker) runPath(fn *ssa.Function, prefix []Dec, loopBound, maxSteps int) (res PathResult) {
-	ts := NewTermStore()
-	w.sol.Reset()
-	ex := &Exec{prog: w.prog, pkg: w.pkg, ts: ts, sol: w.sol, prefix: prefix, globals: map[*ssa.Global]Loc{},
-		opaques: map[string]*Opaque{}, maxSteps: maxSteps, loopBound: loopBound, reached: map[string]bool{},
-		funcsUsed: map[string]int{}, stubsUsed: map[string]int{}}
-	defer func() {
-		res.decisions = len(ex.decisions)
-		res.steps = ex.steps
-		res.viols = ex.viols
-		res.pending = ex.pending
-		res.reached = ex.reached
-		res.funcs = ex.funcsUsed
-		res.stubs = ex.stubsUsed
-		res.inconcl = ex.inconcl
-		if r := recover(); r != nil {
-			switch e := r.(type) {
-			case pathEnd:
-				res.status, res.msg = e.status, e.msg
-				if e.status == "blocked" {
-					if ex.expectBlk == 1 {
-						ex.violation("blocked", "blocked although input complete: "+e.msg, nil)
-						res.viols = ex.viols
-					}
-				}
-			case goPanic:
-				res.status, res.msg = "panic", e.msg
-				ex.violation("panic", e.msg, nil)
-				res.viols = ex.viols
-			case unsupportedErr:
-				res.status, res.msg = "unsupported", e.msg
-			default:
-				panic(r)
-			}
-		}
-	}()
-	ex.side = map[interface{}]interface{}{}
-	ex.pureCache = map[*ssa.Function]bool{}
-	ex.lits = map[int]bool{}
-	ex.exploreSched = w.exploreSched
-	ex.runThreads(func() {
-		if initFn := w.pkg.Func("init"); initFn != nil {
-			ex.call(Closure{fn: initFn}, nil, nil)
-		}
-		ex.call(Closure{fn: fn}, nil, nil)
-	})
-	if ex.expectBlk == 2 {
-		ex.violation("noblock", "returned although expected to block", nil)
-	}
-	res.status = "ok"
-	return
-}
-
+// vsym: bounded symbolic execution of go/ssa for the trzsz-go properties.
+//   vsym check <ID> [--tier quick|thorough] [--seed N] [--only run]   decide one property (spec in /verif/checks)
+//   vsym replay <file>                                                 re-run a counterexample natively
+//   vsym run -harness a.go[,b.go] -entry F [...]                       one exploration, for development
 func main() {
-	harnessFile := flag.String("harness", "", "harness go file (package trzsz)")
-	entry := flag.String("entry", "", "entry function")
-	nworkers := flag.Int("j", 8, "workers")
-	loopBound := flag.Int("unwind", 64, "loop bound")
-	maxSteps := flag.Int("steps", 2000000, "max steps per path")
-	maxPaths := flag.Int("maxpaths", 1000000, "max paths")
-	solver := flag.String("solver", "z3", "solver binary")
-	explore := flag.Bool("sched", false, "explore schedules")
-	ovs := flag.String("ov", "", "extra overlays real=fake,real=fake")
-	flag.Parse()
-
-	t0 := time.Now()
-	src, err := os.ReadFile(*harnessFile)
-	if err != nil {
-		panic(err)
+	if len(os.Args) < 2 {
+		fmt.Println("usage: vsym check|replay|run ...")
+		os.Exit(2)
 	}
-	cfg := &packages.Config{
-		Mode:    packages.LoadAllSyntax,
-		Dir:     "/repo",
-		Overlay: map[string][]byte{"/repo/trzsz/zz_verif_harness.go": src},
-		Env:     append(os.Environ(), "GOFLAGS=-mod=mod", "GOPROXY=off"),
+	switch os.Args[1] {
+	case "check":
+		os.Exit(checkMain(os.Args[2:]))
+	case "replay":
+		os.Exit(replayMain(os.Args[2:]))
+	case "run":
+		os.Exit(runMain(os.Args[2:]))
+	}
+	fmt.Println("unknown command", os.Args[1])
+	os.Exit(2)
+}
+
+func runMain(args []string) int {
+	fs := flag.NewFlagSet("run", flag.ExitOnError)
+	harnessFile := fs.String("harness", "", "harness go files under /verif/harness (comma separated)")
+	entry := fs.String("entry", "", "entry function")
+	nworkers := fs.Int("j", 16, "workers")
+	loopBound := fs.Int("unwind", 64, "loop bound")
+	maxSteps := fs.Int("steps", 2000000, "max steps per path")
+	maxPaths := fs.Int("maxpaths", 1000000, "max paths")
+	solver := fs.String("solver", "z3", "solver binary")
+	explore_ := fs.Bool("sched", false, "explore schedules")
+	ovs := fs.String("ov", "", "extra overlays real=fake,real=fake (e.g. a mutant of a repo file)")
+	bounds := fs.String("b", "", "bounds N=6,M=3")
+	timeout := fs.Int("timeout", 0, "seconds")
+	allowPanic := fs.Bool("allowpanic", false, "go panics are not violations")
+	fs.Parse(args)
+
+	spec := &Spec{Harness: strings.Split(*harnessFile, ",")}
+	ov, err := harnessOverlay(spec, false)
+	if err != nil {
+		fmt.Println(err)
+		return 2
 	}
 	if *ovs != "" {
 		for _, kv := range strings.Split(*ovs, ",") {
 			p := strings.SplitN(kv, "=", 2)
 			b, err := os.ReadFile(p[1])
 			if err != nil {
-				panic(err)
+				fmt.Println(err)
+				return 2
 			}
-			cfg.Overlay[p[0]] = b
+			ov[filepath.Join(repoPkgDir, p[0])] = b
 		}
 	}
-	pkgs, err := packages.Load(cfg, "./trzsz")
+	prog, err := loadProgram(ov)
 	if err != nil {
-		panic(err)
+		fmt.Println(err)
+		return 2
 	}
-	if packages.PrintErrors(pkgs) > 0 {
-		os.Exit(2)
+	bm := map[string]int64{}
+	if *bounds != "" {
+		for _, kv := range strings.Split(*bounds, ",") {
+			p := strings.SplitN(kv, "=", 2)
+			var v int64
+			fmt.Sscan(p[1], &v)
+			bm[p[0]] = v
+		}
 	}
-	prog, spkgs := ssautil.AllPackages(pkgs, ssa.InstantiateGenerics)
-	prog.Build()
-	pkg := spkgs[0]
-	fn := pkg.Func(*entry)
-	if fn == nil {
-		fmt.Println("no entry", *entry)
-		os.Exit(2)
+	opts := RunOpts{Entry: *entry, Bounds: bm, Solver: *solver, Sched: *explore_, Unwind: *loopBound, MaxSteps: *maxSteps,
+		MaxPaths: *maxPaths, Workers: *nworkers, AllowPanic: *allowPanic}
+	if *timeout > 0 {
+		opts.Deadline = time.Now().Add(time.Duration(*timeout) * time.Second)
 	}
-	loadT := time.Since(t0)
-
-	var mu sync.Mutex
-	work := [][]Dec{nil}
-	active := 0
-	cond := sync.NewCond(&mu)
-	stats := map[string]int{}
-	var allViols []Violation
-	reached := map[string]bool{}
-	funcs := map[string]int{}
-	stubs := map[string]int{}
-	msgs := map[string]int{}
-	totalSteps, totalDec, npaths, inconcl := 0, 0, 0, 0
-	var solTime time.Duration
-	nq := 0
-	var wg sync.WaitGroup
-	for wi := 0; wi < *nworkers; wi++ {
-		wg.Add(1)
-		go func() {
-			defer wg.Done()
-			var args []string
-			if *solver == "cvc5" {
-				args = []string{"cvc5", "--incremental", "--lang=smt2", "--produce-models"}
-				if os.Getenv("CVC5_BVINT") != "" {
-					args = append(args, "--solve-bv-as-int="+os.Getenv("CVC5_BVINT"))
-				}
-			} else {
-				args = []string{*solver, "-in"}
-			}
-			sol, err := NewSolver(args...)
-			if err != nil {
-				panic(err)
-			}
-			if *solver == "cvc5" {
-				sol.logic = "QF_BV"
-			}
-			if lf := os.Getenv("VSYM_LOG"); lf != "" {
-				f, _ := os.Create(lf)
-				sol.log = f
-			}
-			w := &Worker{prog: prog, pkg: pkg, sol: sol, exploreSched: *explore}
-			for {
-				mu.Lock()
-				for len(work) == 0 && active > 0 {
-					cond.Wait()
-				}
-				if len(work) == 0 || npaths >= *maxPaths {
-					mu.Unlock()
-					cond.Broadcast()
-					break
-				}
-				p := work[len(work)-1]
-				work = work[:len(work)-1]
-				active++
-				mu.Unlock()
-				r := w.runPath(fn, p, *loopBound, *maxSteps)
-				mu.Lock()
-				active--
-				npaths++
-				stats[r.status]++
-				if r.status != "ok" {
-					msgs[r.status+": "+r.msg]++
-				}
-				work = append(work, r.pending...)
-				allViols = append(allViols, r.viols...)
-				for k := range r.reached {
-					reached[k] = true
-				}
-				for k, v := range r.funcs {
-					funcs[k] += v
-				}
-				for k, v := range r.stubs {
-					stubs[k] += v
-				}
-				totalSteps += r.steps
-				totalDec += r.decisions
-				inconcl += r.inconcl
-				mu.Unlock()
-				cond.Broadcast()
-			}
-			mu.Lock()
-			solTime += sol.dur
-			nq += sol.nSat + sol.nUnsat + sol.nUnk + sol.nErr
-			mu.Unlock()
-			sol.Close()
-		}()
+	rr, err := explore(prog, opts)
+	if err != nil {
+		fmt.Println(err)
+		return 2
 	}
-	wg.Wait()
-	fmt.Printf("entry=%s load=%.1fs wall=%.1fs paths=%d steps=%d decisions=%d queries=%d solver_cpu=%.1fs inconclusive=%d\n",
-		*entry, loadT.Seconds(), time.Since(t0).Seconds(), npaths, totalSteps, totalDec, nq, solTime.Seconds(), inconcl)
-	fmt.Println("status:", stats)
+	fmt.Printf("entry=%s load=%.1fs wall=%.1fs paths=%d steps=%d decisions=%d queries=%v solver_cpu=%.1fs inconclusive=%d timedout=%v\n",
+		*entry, prog.loadS, rr.WallS, rr.Paths, rr.Steps, rr.Decisions, rr.Queries, rr.SolverS, rr.Inconcl, rr.TimedOut)
+	fmt.Println("status:", rr.Status)
 	var ks []string
-	for k := range msgs {
+	for k := range rr.Msgs {
 		ks = append(ks, k)
 	}
 	sort.Strings(ks)
 	for _, k := range ks {
-		fmt.Printf("  %5d %s\n", msgs[k], k)
+		fmt.Printf("  %5d %s\n", rr.Msgs[k], k)
 	}
-	fmt.Println("reached:", reached)
-	fmt.Println("functions encoded:")
-	ks = nil
-	for k := range funcs {
-		ks = append(ks, k)
+	fmt.Println("reached:", rr.Reached)
+	if os.Getenv("VSYM_VERBOSE") != "" {
+		fmt.Println("functions encoded:")
+		ks = nil
+		for k := range rr.Funcs {
+			ks = append(ks, k)
+		}
+		sort.Strings(ks)
+		for _, k := range ks {
+			fmt.Printf("  %6d %s\n", rr.Funcs[k], k)
+		}
+		fmt.Println("stubs:", rr.Stubs)
 	}
-	sort.Strings(ks)
-	for _, k := range ks {
-		fmt.Printf("  %6d %s\n", funcs[k], k)
+	fmt.Printf("violations: %d\n", len(rr.Viols))
+	seen := map[string]int{}
+	for _, v := range rr.Viols {
+		seen[v.kind+": "+v.msg]++
 	}
-	fmt.Println("stubs:", stubs)
-	fmt.Printf("violations: %d\n", len(allViols))
-	for i, v := range allViols {
-		if i >= 5 {
+	for k, n := range seen {
+		fmt.Printf("  %5d %s\n", n, k)
+	}
+	for i, v := range rr.Viols {
+		if i >= 3 {
 			break
 		}
-		fmt.Printf("  %s: %s model=%v\n", v.kind, v.msg, v.model)
+		fmt.Printf("  e.g. %s: %s inputs=%s\n", v.kind, v.msg, fmtInputs(v.hvals))
 	}
+	return 0
 }
